@@ -107,6 +107,41 @@ def q_total_bounds(partition, timeout=120):
     return out
 
 
+def q_partition_sindex(np_=3):
+    """DaskGeoSeries.partition_sindex: the partition-level index is built from the bounds of ALL partitions in
+    partition order (its keys are partition numbers), whatever their values"""
+    it = Interp()
+    rows = np.empty((np_, 4), dtype=object)
+    for i in range(np_):
+        for j in range(4):
+            rows[i, j] = Num(z3.Real(f'pb{i}_{j}'), z3.Bool(f'pnan{i}'))
+    seen = []
+
+    class Frame(FakeBoundsFrame):
+        def __init__(self, arr, tag):
+            self.arr, self.tag = arr, tag
+
+        @property
+        def values(self):
+            return self.arr
+
+        def to_numpy(self, *a, **k):
+            return self.arr
+
+        def dropna(self, *a, **k):
+            return Frame(self.arr[:0], 'dropna')        # any row may be NaN: dropping changes the numbering
+
+        def __len__(self):
+            return len(self.arr)
+    it.stubs['HilbertRtree'] = Stub(lambda b, **kw: seen.append(b) or ('tree', id(b)), 'HilbertRtree(bounds) -> records its argument')
+    selfobj = Obj(partition_bounds=Frame(rows, 'full'), _partition_sindex=None)
+    f = it.func(DK, 'DaskGeoSeries.partition_sindex')
+    it.call(f, [selfobj])
+    ok = len(seen) == 1 and isinstance(seen[0], np.ndarray) and seen[0].shape == rows.shape and all(seen[0][idx] is rows[idx] for idx in np.ndindex(rows.shape))
+    return {'status': 'holds' if ok else 'violated', 'encoded': it.encoded, 'formula_size': 1, 'queries': 1, 'solver_s': 0.0,
+            'detail': None if ok else f'HilbertRtree was built from {[getattr(x, "shape", None) for x in seen]} instead of the {rows.shape} partition bounds'}
+
+
 class FakePartition:
     """a pandas partition: df.cx[x0:x1, y0:y1] -> the member rows with I_i (C04), recording the key"""
     _pysym_model = True
